@@ -2,6 +2,9 @@
 
 use std::io::{self, ErrorKind, Read, Seek, SeekFrom, Write};
 
+/// Calls made into the harness's sources and sinks, process-wide: a progress event for the watchdog.
+pub static IO_TICKS: std::sync::atomic::AtomicU64 = std::sync::atomic::AtomicU64::new(0);
+
 #[derive(Clone, Debug, Default)]
 pub struct ReadPlan {
     /// The source ends (Ok(0)) after this many bytes.
@@ -100,6 +103,7 @@ impl<'a> FaultyRead<'a> {
 
 impl Read for FaultyRead<'_> {
     fn read(&mut self, buf: &mut [u8]) -> io::Result<usize> {
+        IO_TICKS.fetch_add(1, std::sync::atomic::Ordering::Relaxed);
         let call = self.calls;
         self.calls += 1;
         self.max_request = self.max_request.max(buf.len());
@@ -202,6 +206,7 @@ impl FaultyWrite {
 
 impl Write for FaultyWrite {
     fn write(&mut self, buf: &[u8]) -> io::Result<usize> {
+        IO_TICKS.fetch_add(1, std::sync::atomic::Ordering::Relaxed);
         let call = self.calls;
         self.calls += 1;
         if let Some((c, k)) = self.plan.err_at_call {
